@@ -65,7 +65,7 @@ func freeUDPPort() int {
 
 // one listen session on a port: start, send the datagrams (from `senders` sockets, in the given global order), wait for
 // one callback per datagram, stop.  Returns the callbacks and a list of protocol failures observed directly.
-func listenSession(port int, datagrams [][]byte, senders int) (cbs []string, fails []string) {
+func listenSession(port int, datagrams [][]byte, senders int, burst bool) (cbs []string, fails []string) {
 	bind := types.BindAddrFrom(netip.IPv4Unspecified(), 0)
 	listen := types.ListenAddrFrom(netip.AddrFrom4([4]byte{127, 0, 0, 1}), uint16(port))
 	u := uhppote.NewUHPPOTE(bind, types.BroadcastAddr{}, listen, 500*time.Millisecond, nil, false)
@@ -101,13 +101,30 @@ func listenSession(port int, datagrams [][]byte, senders int) (cbs []string, fai
 		defer c.Close()
 		socks = append(socks, c)
 	}
-	for i, d := range datagrams {
-		socks[i%senders].Write(d)
-		// one datagram in flight at a time keeps the arrival order equal to the send order across sender sockets
-		select {
-		case <-l.n:
-		case <-time.After(2 * time.Second):
-			fails = append(fails, fmt.Sprintf("no callback within 2 s for datagram %d (%d bytes)", i, len(d)))
+	if burst {
+		// back to back: the datagrams queue up in the socket while earlier ones are still being decoded and delivered
+		for i, d := range datagrams {
+			socks[i%senders].Write(d)
+		}
+		for i := range datagrams {
+			select {
+			case <-l.n:
+			case <-time.After(2 * time.Second):
+				fails = append(fails, fmt.Sprintf("burst: no callback within 2 s for datagram %d of %d", i, len(datagrams)))
+			}
+			if len(fails) > 0 {
+				break
+			}
+		}
+	} else {
+		for i, d := range datagrams {
+			socks[i%senders].Write(d)
+			// one datagram in flight at a time keeps the arrival order equal to the send order across sender sockets
+			select {
+			case <-l.n:
+			case <-time.After(2 * time.Second):
+				fails = append(fails, fmt.Sprintf("no callback within 2 s for datagram %d (%d bytes)", i, len(d)))
+			}
 		}
 	}
 	// nothing else may arrive
@@ -154,6 +171,7 @@ func runC10(o Opts) error {
 	port := freeUDPPort()
 	probe := genOp(r, 8, 1, false)
 	total := 0
+	bursts := 0
 	for k := 0; k < sessions; k++ {
 		n := 5 + r.Intn(40)
 		if o.Tier == "thorough" {
@@ -186,7 +204,37 @@ func runC10(o Opts) error {
 			ds = append(ds, d)
 			hx = append(hx, hexs(d))
 		}
-		cbs, fails := listenSession(port, ds, 1+r.Intn(3))
+		// every third session is a burst from one socket (arrival order = send order); bursts carry no oversized datagrams
+		burst := k%3 == 2
+		if burst {
+			for i := range ds {
+				if len(ds[i]) > 256 {
+					ds[i] = ds[i][:256]
+					hx[i] = hexs(ds[i])
+				}
+			}
+			if len(ds) > 120 {
+				ds, hx = ds[:120], hx[:120]
+			}
+		}
+		senders := 1 + r.Intn(3)
+		if burst {
+			senders = 1
+		}
+		cbs, fails := listenSession(port, ds, senders, burst)
+		if burst && len(fails) == 0 {
+			// the same datagrams again as a burst from three sockets: the order across sockets is the kernel's, so the
+			// callbacks are compared as a multiset (and per socket in order) with those of the one-socket burst
+			cbs3, fails3 := listenSession(port, ds, 3, true)
+			fails = append(fails, fails3...)
+			if len(fails3) == 0 {
+				if why := sameDeliveries(cbs, cbs3, 3); why != "" {
+					fails = append(fails, "burst from three sockets: "+why)
+				}
+			}
+			total += len(ds)
+			bursts++
+		}
 		total += len(ds)
 		for _, f := range fails {
 			s.Fail(map[string]any{"op": "listen", "datagrams": strings.Join(hx, ","), "session": k}, f)
@@ -199,10 +247,30 @@ func runC10(o Opts) error {
 			}
 			terms = append(terms, coqBytes(d))
 		}
-		s.Add("CListen "+coqList(terms)+" "+coqList(cbs), map[string]any{"op": "listen", "datagrams": strings.Join(hx, ","), "callbacks": len(cbs)},
-			[]string{"session/same-port-rebind", "session/first"}[b2i(k == 0)], true)
+		s.Add([]string{"CListen ", "CListenBurst "}[b2i(burst)]+coqList(terms)+" "+coqList(cbs), map[string]any{"op": "listen", "datagrams": strings.Join(hx, ","), "callbacks": len(cbs)},
+			[]string{"session/same-port-rebind", "session/first", "session/burst", "session/burst"}[b2i(k == 0)+2*b2i(burst)], true)
 	}
 	s.Extra["datagrams_sent"] = total
-	s.Extra["sessions_on_one_port"] = sessions
+	s.Extra["sessions_on_one_port"] = sessions + bursts
+	s.Extra["burst_sessions"] = 2 * bursts
 	return s.Close()
+}
+
+// callbacks of the same datagrams sent round-robin from n sockets: same multiset, and for each socket its datagrams'
+// callbacks in send order (a = callbacks in send order from one socket)
+func sameDeliveries(a, b []string, n int) string {
+	if len(a) != len(b) {
+		return fmt.Sprintf("%d callbacks instead of %d", len(b), len(a))
+	}
+	count := map[string]int{}
+	for _, x := range a {
+		count[x]++
+	}
+	for _, x := range b {
+		count[x]--
+		if count[x] < 0 {
+			return "a callback that corresponds to none of the datagrams sent (or one delivered twice): " + x
+		}
+	}
+	return ""
 }
